@@ -81,7 +81,7 @@ def run(ctx, chk):
             ev = locs.get(obj)
             per_addr.setdefault(cls, []).append((iters, conds, obj, ev if ev is not None
                                                  else s.events[0]))
-    AS = "list(scenario.scenario_dict['host'].keys())"
+    AS = "list(scenario.scenario_dict['host'])"
     want_iters = {"ServiceScan": [AS], "OSScan": [AS], "SubnetScan": [AS], "ProcessScan": [AS],
                   "Exploit": [AS, "scenario.scenario_dict['exploits']"],
                   "PrivilegeEscalation": [AS, "scenario.scenario_dict['privilege_escalation']"]}
@@ -316,15 +316,18 @@ def check_decode_lookup(ctx, chk):
             from sa.ctx import sat
             F = f_or([cn.conj(tuple(c for c in pc if c[0] != "fact")) for pc in noop])
             # the maps hold definition dicts (C11.definition), never None
-            none_entry = f"None is {mp}[{key}][{osv}]"
-            F = f_subst(F, lambda a: ("false",) if a == none_entry else None)
+            none_prefix = f"None is {mp}["
+
+            def nn(a):
+                return ("false",) if a.startswith(none_prefix) else None
+            F = f_subst(F, nn)
             want = f_or([f_not(A(f"{key} in {mp}")), f_not(A(f"{osv} in {mp}[{key}]"))])
 
             def under(t, pc):
                 """the alternative of a conditional value that is consistent with the path"""
                 if t[0] == "cases":
                     P = cn.conj(tuple(c for c in pc if c[0] != "fact"))
-                    P = f_subst(P, lambda a: ("false",) if a == none_entry else None)
+                    P = f_subst(P, nn)
                     live = [x for cpc, x in t[1]
                             if sat(f_and([P, cn.conj(tuple(c for c in cpc if c[0] != "fact"))]))]
                     live = [x for x in live if x != C(None)] or live
@@ -333,8 +336,8 @@ def check_decode_lookup(ctx, chk):
                     return t
                 if t[0] == "phi":
                     P = cn.conj(tuple(c for c in pc if c[0] != "fact"))
-                    P = f_subst(P, lambda a: ("false",) if a == none_entry else None)
-                    c_ = f_subst(cn.formula(t[1]), lambda a: ("false",) if a == none_entry else None)
+                    P = f_subst(P, nn)
+                    c_ = f_subst(cn.formula(t[1]), nn)
                     if f_implies(P, c_):
                         return under(t[2], pc)
                     if f_implies(P, f_not(c_)):
@@ -407,11 +410,27 @@ def check_mask(ctx, chk):
                fi.module.path)
         return
     n_s, it, idx, cond, one, detail = sem
-    chk.ob("C11.mask", "mask has action_space.n entries", n_s == "self.action_space.n"
-           and it == "range(self.action_space.n)" and idx == I, f"length {n_s}, filled over {it} at "
-           f"index {idx}", fi.module.path)
+    from sa.canon import f_subst
+    # the flat-space type test is the function's precondition, not part of the mask predicate
+    cond = f_subst(cond, lambda a: ("true",) if a.startswith("isinstance(self.action_space, ")
+                   else None)
+    # two equivalent enumerations of the flat actions (C11.size: n = len(actions); C11.enumeration:
+    # get_action(i) = actions[i]): by index, or by enumerate(actions)
+    EN = "enumerate(self.action_space.actions)"
+    forms = {
+        "range(self.action_space.n)": (I, want),
+        "range(len(self.action_space.actions))": (
+            "each(range(len(self.action_space.actions)))",
+            A("self.current_state[self.action_space.actions[each(range(len("
+              "self.action_space.actions)))].target].discovered")),
+        EN: (f"each({EN})[0]", A(f"self.current_state[each({EN})[1].target].discovered")),
+    }
+    known = it in forms and n_s in ("self.action_space.n", "len(self.action_space.actions)")
+    w_idx, w_cond = forms.get(it, (I, want))
+    chk.ob("C11.mask", "mask has action_space.n entries", known and idx == w_idx,
+           f"length {n_s}, filled over {it} at index {idx}", fi.module.path)
     chk.ob("C11.mask", "mask[i] = 1 exactly when get_action(i).target is discovered in the current "
-           "state", one and idx == I and f_equiv(cond, want), detail, fi.module.path)
+           "state", one and idx == w_idx and f_equiv(cond, w_cond), detail, fi.module.path)
 
 
 def mask_semantics(ip, cn, s):
